@@ -12,6 +12,9 @@ from concurrent.futures import ThreadPoolExecutor
 
 HERE = os.path.dirname(os.path.abspath(__file__))
 VERIF = os.path.dirname(HERE)
+# self-test runs (mutants) must not overwrite the committed evidence / replays
+EVID_DIR = os.environ.get("VERIF_EVIDENCE_DIR") or os.path.join(VERIF, "evidence")
+REPLAY_DIR = os.environ.get("VERIF_REPLAY_DIR") or os.path.join(VERIF, "replays")
 sys.path.insert(0, HERE)
 import build as B
 from props import PROPS, DRIVER_SOURCES
@@ -76,6 +79,8 @@ class ShardResult:
         self.inconclusive = []
         self.restarts = 0
         self.tsan_reports = []
+        self.case_keys = []          # keys of cases seen in attempts that did not finish (stats lost)
+        self.lost_cases = set()
 
 
 def parse_log(path, res):
@@ -93,6 +98,7 @@ def parse_log(path, res):
             if line.startswith("CASE "):
                 _, idx, key = (line.split(" ", 2) + [""])[:3]
                 open_idx, open_key = int(idx), key
+                res.case_keys.append(key)
             elif line.startswith("END "):
                 open_idx, open_key = None, None
             elif line.startswith("VIOL "):
@@ -119,7 +125,7 @@ def parse_log(path, res):
     return done, open_idx, open_key, fault
 
 
-def run_shard(binpath, args, env, workdir, tag, prop, timeout, max_restarts=400):
+def run_shard(binpath, args, env, workdir, tag, prop, timeout, max_restarts=400, stop_after_crashes=None):
     """Run one shard to completion, restarting after every crashing case."""
     res = ShardResult()
     start = 0
@@ -146,6 +152,8 @@ def run_shard(binpath, args, env, workdir, tag, prop, timeout, max_restarts=400)
         res.viols += tmp.viols
         res.inconclusive += tmp.inconclusive
         err = open(errp, "r", errors="replace").read()
+        if not done and not (rc == 77 and tmp.restart_at is not None):
+            res.lost_cases.update(hash(k) for k in tmp.case_keys)     # counters of this attempt died with it
         if done and rc == 0:
             res.done = True
             break
@@ -159,6 +167,9 @@ def run_shard(binpath, args, env, workdir, tag, prop, timeout, max_restarts=400)
             continue
         if timed_out:
             timeouts += 1
+            if stop_after_crashes is not None and res.viols:
+                res.done = True
+                break
             res.inconclusive.append("timeout in %s at case %s (%s)" % (tag, open_idx, open_key))
             if timeouts >= 2 or open_idx is None:
                 break
@@ -166,6 +177,10 @@ def run_shard(binpath, args, env, workdir, tag, prop, timeout, max_restarts=400)
             attempt += 1
             continue
         kind = classify_stderr(err, rc)
+        if done and rc == 66:
+            # ThreadSanitizer's exit code: its reports are collected from the log files below
+            res.done = True
+            break
         if done:
             # died after DONE: at-exit report (LeakSanitizer or a destructor fault)
             res.viols.append((prop, -1, "%s|at-exit|%s" % (prop, kind), "process exit code %d after workload completed" % rc, err[-6000:]))
@@ -178,6 +193,10 @@ def run_shard(binpath, args, env, workdir, tag, prop, timeout, max_restarts=400)
         detail = "process died (rc=%d) inside case %d; %s" % (rc, open_idx, (fault or "").strip())
         res.viols.append((prop, open_idx, key, detail, err[-8000:]))
         res.restarts += 1
+        if stop_after_crashes is not None and res.restarts >= stop_after_crashes:
+            # enough witnesses from this shard (racy trees crash in most rounds); the verdict is already "violated"
+            res.done = True
+            break
         if res.restarts > max_restarts:
             res.inconclusive.append("more than %d crashing cases in %s" % (max_restarts, tag))
             break
@@ -210,7 +229,7 @@ def tsan_dedupe(texts):
                 if not re.search(r"(Write|Read|Previous|Atomic).* of size|Mutex|Thread T\d+ .*created|acquired", head) \
                         and "of size" not in head:
                     continue
-                if "of size" not in head:
+                if "of size" not in head or not re.match(r"\s*(Write|Read|Previous|Atomic)", head):
                     continue
                 fr = [re.sub(r":\d+(:\d+)?", "", f.strip()) for f in re.findall(r"#\d+ (\w+) ", st)]
                 libfr = [f for f in fr if not f.startswith("__") and f not in ("main",)]
@@ -230,7 +249,7 @@ def load_known():
 
 def witness_path(prop, key):
     h = hashlib.sha1(key.encode()).hexdigest()[:12]
-    return os.path.join(VERIF, "replays", "%s-%s.json" % (prop, h))
+    return os.path.join(REPLAY_DIR, "%s-%s.json" % (prop, h))
 
 
 def union_dist(workdir, cls_nontrivial):
@@ -276,7 +295,7 @@ def main():
         return 2
     spec = PROPS[prop]
     t0 = time.time()
-    workdir = os.path.join(VERIF, "_work", "%s_%d" % (prop, os.getpid()))
+    workdir = os.path.join(os.environ.get("VERIF_WORK_DIR") or os.path.join(VERIF, "_work"), "%s_%d" % (prop, os.getpid()))
     shutil.rmtree(workdir, ignore_errors=True)
     os.makedirs(workdir)
     rc = 2
@@ -339,11 +358,11 @@ def run_check(prop, spec, tier, seed, workdir, t0, only_run=None):
             env = san_env(r["flavour"], libdir, r.get("leaks", False), workdir, tag)
             env.update(r.get("env", {}))
             timeout = r.get("timeout", {"quick": 600, "thorough": 7200})[tier]
-            jobs.append((ri, bins[r["driver"]], args, env, tag, timeout))
+            jobs.append((ri, bins[r["driver"]], args, env, tag, timeout, r.get("stop_after_crashes")))
 
     def go(j):
-        ri, binp, args, env, tag, timeout = j
-        return ri, run_shard(binp, args, env, workdir, tag, prop, timeout), args
+        ri, binp, args, env, tag, timeout, sac = j
+        return ri, run_shard(binp, args, env, workdir, tag, prop, timeout, stop_after_crashes=sac), args
 
     results = []
     with ThreadPoolExecutor(max_workers=NCPU) as ex:
@@ -381,6 +400,15 @@ def run_check(prop, spec, tier, seed, workdir, t0, only_run=None):
     ncls = spec.get("distinct_class", "nontrivial")
     distinct = union_dist(workdir, ncls)
     evaluations = stats.get(spec.get("eval_stat", "evaluations"), 0)
+    lost = set()
+    for ri, res, args in results:
+        lost |= res.lost_cases
+    lost_note = ""
+    if lost:
+        # processes that died took their counters with them: add the cases seen in the event log as a lower bound
+        evaluations += len(lost)
+        distinct += len(lost)
+        lost_note = "%d case(s) ran in processes that crashed; they are counted from the event log (one evaluation / one distinct case key each)" % len(lost)
 
     # ---- known findings ----
     known = load_known()
@@ -405,7 +433,7 @@ def run_check(prop, spec, tier, seed, workdir, t0, only_run=None):
         else:
             reported.append(v)
 
-    os.makedirs(os.path.join(VERIF, "replays"), exist_ok=True)
+    os.makedirs(REPLAY_DIR, exist_ok=True)
     for hit, cnt in known_hit.values():
         log("KNOWN-FINDING: property=%s %s (%d matching case(s) this run)" % (hit["property"], hit["what"], cnt))
     max_lines = 40
@@ -451,6 +479,7 @@ def run_check(prop, spec, tier, seed, workdir, t0, only_run=None):
         "known_findings_hit": [h["key"] for h, _ in known_hit.values()],
         "verdict": verdict,
         "inconclusive_reasons": inconcl[:10],
+        "crash_accounting": lost_note,
         "build_s": round(build_s, 1),
     }
     ev = {
@@ -460,10 +489,15 @@ def run_check(prop, spec, tier, seed, workdir, t0, only_run=None):
         "wall_s": round(wall, 1),
         "violations": len(reported),
     }
-    os.makedirs(os.path.join(VERIF, "evidence"), exist_ok=True)
-    evp = os.path.join(VERIF, "evidence", "%s.json" % prop)
+    os.makedirs(EVID_DIR, exist_ok=True)
+    evp = os.path.join(EVID_DIR, "%s.json" % prop)
     json.dump(ev, open(evp, "w"), indent=1)
-    validate_evidence(evp)
+    try:
+        validate_evidence(evp)
+    except Exception as e:
+        if verdict != "violated":
+            raise
+        log("note: evidence file does not validate on this violated run: %s" % str(e)[:300])
     log("%s tier=%s seed=%d verdict=%s evaluations=%d distinct_nontrivial=%d violations=%d known=%d wall=%.1fs" %
         (prop, tier, seed, verdict, evaluations, distinct, len(reported), len(known_hit), wall))
     for k in sorted(stats):
@@ -483,6 +517,15 @@ def validate_evidence(path):
     try:
         import jsonschema
     except ImportError:
+        # the system python has no jsonschema; the tooling venv does
+        import shutil as _sh
+        vt = _sh.which("python3-vt")
+        if vt:
+            code = ("import json,jsonschema,sys;"
+                    "jsonschema.validate(json.load(open(sys.argv[1])), json.load(open('/root/.vp/EVIDENCE.schema.json')))")
+            p = subprocess.run([vt, "-c", code, path], stdout=subprocess.PIPE, stderr=subprocess.STDOUT, text=True)
+            if p.returncode != 0:
+                raise RuntimeError("evidence file does not validate: " + p.stdout[-600:])
         return
     try:
         schema = json.load(open("/root/.vp/EVIDENCE.schema.json"))
